@@ -222,7 +222,7 @@ func init() {
 		},
 		"fmt.Println": noop, "fmt.Printf": noop, "fmt.Print": noop, "fmt.Fprintf": noop, "fmt.Fprintln": noop, "fmt.Fprint": noop,
 		"log.Println": noop, "log.Printf": noop, "log.Print": noop,
-		"os.Stat": valueOrError, "os.Lstat": valueOrError, "os.Open": valueOrError, "os.Create": valueOrError, "os.OpenFile": valueOrError,
+		"os.Stat": statExt, "os.Lstat": statExt, "os.Open": valueOrError, "os.Create": valueOrError, "os.OpenFile": valueOrError,
 		"os.Exit": exits, "log.Fatal": exits, "log.Fatalf": exits, "log.Fatalln": exits,
 		"(*regexp.Regexp).MatchString":        regexMatch,
 		"(*regexp.Regexp).FindString":         regexFind,
@@ -293,7 +293,23 @@ func readFileExt(e *enc, x *ssa.Call, a []Term) bool {
 	content := fmt.Sprintf("(select %s %s)", e.mem[k], a[0])
 	r := e.define("filebytes", bs, fmt.Sprintf("(%s %s)", bo, content))
 	e.assume(fmt.Sprintf("(and (= (%s %s) %s) (= (len_%s %s) (str.len %s)))", so, r, content, bs, r, content))
-	e.fr.tuples[x] = []Term{r, e.fresh("readerr", "Int")}
+	// the error is nil for a readable file (Readable(path) in contracts); otherwise unconstrained
+	rd := e.uf("FileReadable", []string{"String"}, "Bool")
+	errT := e.fresh("readerr", "Int")
+	e.assume(fmt.Sprintf("(=> (%s %s) (= %s 0))", rd, a[0], errT))
+	e.fr.tuples[x] = []Term{r, errT}
+	return true
+}
+
+// os.Stat & co: (info, err); for a path that is Readable the call succeeds
+func statExt(e *enc, x *ssa.Call, a []Term) bool {
+	if !valueOrError(e, x, a) {
+		return false
+	}
+	if tup, ok := e.fr.tuples[x]; ok && len(tup) == 2 && len(a) >= 1 {
+		rd := e.uf("FileReadable", []string{"String"}, "Bool")
+		e.assume(fmt.Sprintf("(=> (%s %s) (and (not (= %s 0)) (= %s 0)))", rd, a[0], tup[0], tup[1]))
+	}
 	return true
 }
 
